@@ -295,7 +295,9 @@ def _ifftc(input, oshape=None, axes=None, norm="ortho"):
 
 def _scale_coord(coord, shape, oversamp):
     ndim = coord.shape[-1]
-    output = coord.astype(np.result_type(coord.dtype, np.float32))
+    output = coord.astype(
+        coord.dtype if coord.dtype.kind == "f" else np.float64
+    )
     for i in range(-ndim, 0):
         scale = ceil(oversamp * shape[i]) / shape[i]
         shift = ceil(oversamp * shape[i]) // 2
